@@ -43,6 +43,7 @@ static int ph, step, in_pre, aborted, drain_cycles, closing;
 static unsigned char mq[1 << 16]; static int mq_head, mq_tail, m_dead;
 static long n_exec, n_sends, n_dropped_tails, n_devs, n_wraps, n_spurious_interest;
 static int run_devs, run_drops, run_wrap;
+static int in_write, blocked_len_max;      /* during a write: largest ring fill seen at a send() that was answered would-block */
 static unsigned gctr;
 
 /* ------------------------------------------------------------------ choices */
@@ -140,6 +141,7 @@ static long send_hook (env_cli *c, const void *buf, size_t len) {
   if (selftest == 1 && ans > 1 && ans < (long) len) { mq_head += (int) ans; return ans - 1; }  /* broken environment: reports more than it took */
   if (ans >= 0) mq_head += (int) ans;
   else if (ans == -EPIPE) m_dead = 1;
+  else if (in_write) { interactive_t *ip = cur_ip (); if (ip && ip->message_length > blocked_len_max) blocked_len_max = ip->message_length; }
   return ans;
 }
 
@@ -164,8 +166,11 @@ static void issue_write (int len, int lf, int kind) {
   int before_dead = m_dead;
   if (mq_tail + elen > (int) sizeof mq) { aborted = 1; return; }
   memcpy (mq + mq_tail, ex, (size_t) elen); mq_tail += elen;      /* optimistic: the dropped tail is removed below */
-  if (kind == 0) { if (call_w ()) failx ("C14:harness:lpc-error", "w() raised an error"); }
+  in_write = 1; blocked_len_max = -1;
+  if (kind == 0 && len >= 8192) add_message (user_ob, mbuf);   /* receive() refuses strings of 8192 bytes and more: call add_message() as tell_object() would */
+  else if (kind == 0) { if (call_w ()) failx ("C14:harness:lpc-error", "w() raised an error: %s", hx_last_error); }
   else add_vmessage (user_ob, "%s", mbuf);
+  in_write = 0;
   if (aborted) return;
   interactive_t *ip = cur_ip ();
   if (!ip) { failx ("C14:connection-vanished-during-write", "the interactive was removed while writing"); return; }
@@ -183,9 +188,10 @@ static void issue_write (int len, int lf, int kind) {
     run_drops++;
     if (first == '\n' && elen - dropped >= 1 && ex[elen - dropped - 1] == '\r')
       failx ("C14:CRLF-split-by-dropped-tail", "the tail dropped from the message starts between CR and LF");
-    else if (!before_dead && real + need > SZ) { /* full: permitted */ }
     else if (before_dead) { }
-    else failx ("C14:tail-dropped-although-ring-had-room", "write of %d bytes: %d bytes dropped while the ring holds %d of %d", len, dropped, real, SZ);
+    /* permitted only when the ring could not take the next unit at a moment the socket refused data during this write */
+    else if (blocked_len_max >= 0 && blocked_len_max + need > SZ) { }
+    else failx ("C14:tail-dropped-although-ring-had-room", "write of %d bytes: %d bytes dropped; fullest ring at a refused send() during the write: %d of %d (now %d)", len, dropped, blocked_len_max, SZ, real);
   }
   check_state ("after write");
 }
@@ -339,6 +345,7 @@ static void push_work (const int *c, int n, int alt, int cost) {
   memcpy (w->c, c, sizeof (int) * (size_t) n); w->c[n] = alt; w->n = n + 1; w->cost = cost;
 }
 static void elem_scen (long idx) {
+  safe_apply_master_ob ("clear_mlog", 0);       /* the verification master logs every connect(): keep that array small */
   scen_decode (idx, &SC);
   wsp = 0;
   int first = 1;
@@ -348,6 +355,7 @@ static void elem_scen (long idx) {
     first = 0;
     memcpy (dfs_prefix, cur.c, sizeof (int) * (size_t) cur.n); dfs_plen = cur.n; dfs_len = 0; dfs_overflow = 0;
     run_scenario ();
+    if ((n_exec & 4095) == 0) safe_apply_master_ob ("clear_mlog", 0);
     if (dfs_overflow) vx_fail ("C14:harness:too-many-send-calls", "more than %d choice points in one execution", MAXCH);
     for (int i = dfs_len - 1; i >= cur.n; i--)
       if (cur.cost + 1 <= budget)
@@ -361,6 +369,7 @@ static void body (void) {
   int lens[8], nl = 0;
   lens[nl++] = 0; lens[nl++] = 1; lens[nl++] = 3; lens[nl++] = SZ - 1; lens[nl++] = SZ; lens[nl++] = SZ + 1; lens[nl++] = 2 * SZ + 1;
   memset (&SC, 0, sizeof SC);
+  safe_apply_master_ob ("clear_mlog", 0);
   SC.nw = 1 + vx_choose_free (nw_opt, "writes");
   SC.kind = vx_choose_free (kinds, "via");
   SC.pre = PRE[vx_choose_free (nPRE, "start")];
@@ -396,3 +405,6 @@ int main (int argc, char **argv) {
   vx_set_enum (scen_total (), elem_scen, describe);
   return vx_run (argc, argv, body);
 }
+
+/* a fresh 6 KB interactive_t per execution: keep ASan's quarantine small so that memory (and page-fault time) does not grow */
+const char *__asan_default_options (void) { return "quarantine_size_mb=16"; }
